@@ -275,6 +275,29 @@ pub fn nm_period_replay_traced(signal: &SignalBeam, pump: &PumpBeam, cs: &Crysta
   r.ok().map(|p| (p, table.into_inner(), guess, guess + 1e-6))
 }
 
+/// does the cost function of the automatic-period search evaluate to NaN at one of the candidate periods of the replayed
+/// search (public API only)?  The independent observation of the cause "NaN cost" of a panic in that search.
+pub fn nm_period_cost_nan(signal: &SignalBeam, pump: &PumpBeam, cs: &CrystalSetup, z: f64) -> bool {
+  let seen_nan = std::cell::Cell::new(false);
+  let guess = (std::f64::consts::TAU / z).abs();
+  let _ = guarded_loc(|| {
+    let sign: Sign = z.into();
+    let pm = |period: f64| {
+      let pp = PeriodicPoling::On { period: period * M, sign, apodization: Apodization::Off };
+      let c = match IdlerBeam::try_new_optimum(signal, pump, cs, &pp) {
+        Ok(idler) => (*(delta_k(signal.frequency(), idler.frequency(), signal, &idler, pump, cs, &pp) * M / RAD)).z.abs(),
+        Err(_) => f64::NAN,
+      };
+      if c.is_nan() {
+        seen_nan.set(true);
+      }
+      c
+    };
+    spdcalc::math::nelder_mead_1d(pm, (guess, guess + 1e-6), 1000, f64::MIN_POSITIVE, *(cs.length / M), 1e-12)
+  });
+  seen_nan.get()
+}
+
 pub fn nm_period_replay(signal: &SignalBeam, pump: &PumpBeam, cs: &CrystalSetup, z: f64) -> Option<f64> {
   nm_period_replay_traced(signal, pump, cs, z).map(|r| r.0)
 }
@@ -293,6 +316,8 @@ pub fn shadow(cfg: &SPDCConfig) -> Value {
     orc.insert("waist_pos".into(), Value::Array(waist_pos));
     json!({"steps": steps, "oracles": orc, "shadow": sh, "cs0": crystal_json(&cs0)})
   };
+  // does the crystal's own index function evaluate at all (an expression crystal with an unbound name does not)?
+  orc.insert("index_panics".into(), json!(guarded_loc(|| cs0.crystal.get_indices(cfg.signal.wavelength_nm * NANO * M, cs0.temperature)).is_err()));
   // -- signal
   let so = outcome(|| cfg.signal.clone().try_as_beam(&cs0));
   steps.push(step("signal", &(so.0.clone(), so.1.clone(), so.2.clone()), json!({})));
@@ -328,6 +353,13 @@ pub fn shadow(cfg: &SPDCConfig) -> Value {
                 orc.insert("nm_period_trace".into(), json!({"g0": fx(g0), "g1": fx(g1), "min": fx(f64::MIN_POSITIVE), "max": fx(*(cs0.length / M)),
                   "tol": fx(1e-12), "max_iter": 1000, "result": fx(p), "table": table.iter().map(|(x, c)| json!([fx(*x), fx(*c)])).collect::<Vec<_>>()}));
               }
+            }
+          }
+        }
+        if nm.is_null() {
+          if let Some(z) = z {
+            if z.is_finite() && z != 0. && !(ls <= lp) {
+              orc.insert("nm_period_cost_nan".into(), json!(nm_period_cost_nan(&signal, &pump, &cs0, z)));
             }
           }
         }
@@ -498,7 +530,11 @@ fn apod_value(rng: &mut Rng) -> Value {
 /// Structured configuration.  `mal` selects a malformation / boundary class (0 = valid stream).
 pub fn gen_config(rng: &mut Rng, mal: usize, tags: &mut Vec<String>) -> Value {
   let cr = crystals();
-  let c = &cr[rng.below(cr.len())];
+  let mut c = &cr[rng.below(cr.len())];
+  if mal == 8 {
+    // the expression crystal below is BBO_1's formula: wavelengths from BBO_1's window
+    c = cr.iter().find(|x| x.id == "BBO_1").unwrap_or(c);
+  }
   let ty = rng.below(5);
   let form = rng.below(8);
   let (lp, mut ls) = pick_wavelengths(rng, c);
@@ -525,8 +561,11 @@ pub fn gen_config(rng: &mut Rng, mal: usize, tags: &mut Vec<String>) -> Value {
   }
   crystal.insert("length_um".into(), json!(length));
   crystal.insert("temperature_c".into(), json!(short(rng.range(-20., 150.))));
-  if rng.below(8) == 0 {
-    crystal.insert("counter_propagation".into(), json!(false));
+  // every value of the only boolean field: true / false / omitted (serde default = false)
+  match rng.below(4) {
+    0 => { crystal.insert("counter_propagation".into(), json!(true)); tags.push("counter_propagation".into()); }
+    1 => { crystal.insert("counter_propagation".into(), json!(false)); }
+    _ => tags.push("omit:crystal.counter_propagation".into()),
   }
   let mut pump = Map::new();
   pump.insert("waist_um".into(), json!(short(rng.log_range(20., 500.))));
@@ -659,6 +698,23 @@ pub fn gen_config(rng: &mut Rng, mal: usize, tags: &mut Vec<String>) -> Value {
         tags.push("short_crystal_auto_period".into());
       }
       pp_present = true;
+    }
+    8 => {
+      // expression crystals (CrystalType::Expr): BBO's Sellmeier formula written out (uniaxial, or biaxial with nx = ny),
+      // and the same with an unknown variable / an unknown function in one expression -- an invalid configuration
+      let no = "sqrt(2.7359+0.01878/(l^2-0.01822)-0.01354*l^2)";
+      let ne = "sqrt(2.3753+0.01224/(l^2-0.01667)-0.01516*l^2)";
+      let bad = rng.below(3);
+      let spoil = |e: &str| -> String {
+        match bad { 1 => format!("{}+q", e), 2 => format!("foo({})", e), _ => e.to_string() }
+      };
+      let kind = if rng.coin() {
+        json!({"no": spoil(no), "ne": ne})
+      } else {
+        json!({"nx": no, "ny": no, "nz": spoil(ne)})
+      };
+      crystal.insert("kind".into(), kind);
+      tags.push(match bad { 1 => "expr_crystal:unknown_variable", 2 => "expr_crystal:unknown_function", _ => "expr_crystal:valid" }.into());
     }
     _ => {}
   }
